@@ -7,7 +7,7 @@ func init() {
 			la := NewLockAnalysis(w)
 			r.Rule("R15.1", 3, "recover around the constructor call; panic and invocation errors mapped with their payload")
 			r.Rule("R15.2", 8, "R-ERRCHAIN (i): Unwrap on every error struct with a cause field")
-			r.Rule("R15.3", 12, "R-ERRCHAIN (ii): %w for error arguments of fmt.Errorf")
+			r.Rule("R15.3", 8, "R-ERRCHAIN (ii): %w for error arguments of fmt.Errorf")
 			r.Rule("R15.4", 20, "R-ERRCHAIN (iii): sentinels used as values")
 			r.Rule("R15.4c", 10, "typed errors built in an `err != nil` branch keep err as Cause")
 			r.Rule("R15.5", 1, "commit-after-validate in createInstance")
